@@ -72,6 +72,11 @@ v = v[0]
 v["index"] = 0
 expect_problem("stockobject", replay_stockobject.run_history, v, lambda b: b["hist"][1].__setitem__("driver", 2))
 
+from harness import replay_lifecycle
+v = [x for x in one_vector("MC_Lifecycle.tla", {"ModelId": 1, "Depth": 2, "Emit": True, "Rich": False}, ["EmitInv"]) if x["events"][0]["op"] == "compute"][0]
+expect_problem("lifecycle", replay_lifecycle.run_vector, v, lambda b: b["events"][0]["state"]["slev"][0]["flat"][-1].__setitem__(0, b["events"][0]["state"]["slev"][0]["flat"][-1][0] + 1))
+expect_problem("lifecycle/mb", replay_lifecycle.run_vector, v, lambda b: b["events"][0].__setitem__("failing_strict", ["A"]))
+
 print("1b. binding of the trace specifications: one corrupted field of a recorded trace must lead to REJECTED")
 from harness import trace_driver, trace_massbalance, trace_dimsets, trace_stocks, trace_tables
 
@@ -131,6 +136,17 @@ def corrupt_tab(b):
                 return tid
 
 
+def corrupt_life(b):
+    for tid, tr in enumerate(b["traces"], start=1):
+        for e in tr["events"]:
+            if e["op"] == "export" and e["outcome"] == "ok" and e["flows"] and e["flows"][0]["rows"]:
+                r = e["flows"][0]["rows"][0]
+                r["v"] = [r["v"][0] + 1, r["v"][1] or 1]
+                return tid
+
+
+from harness import trace_lifecycle
+expect_rejection("lifecycle", trace_lifecycle.record_batch(0, 5, 16, 5), trace_lifecycle.validate_batch, corrupt_life)
 expect_rejection("tables", trace_tables.record_batch(8, 6, 5), trace_tables.validate_batch, corrupt_tab)
 expect_rejection("stocks", trace_stocks.record_batch(8, 10, 5), trace_stocks.validate_batch, corrupt_st)
 expect_rejection("workspace", trace_driver.record_batch(0, 6, 12, 5), trace_driver.validate_batch, corrupt_ws)
@@ -179,6 +195,14 @@ expect_tlc_violation("duplicates not refused", "MC_Tables.tla", {"Part": "import
 expect_tlc_violation("union that reorders", "MC_DimSets.tla", {"Scenario": "pairs", "Depth": 1, "MaxLen": 2, "Alphabet": {"A", "B", "C"}, "Emit": False,
                                                               **{f"{x}{i}": "" for x in "ST" for i in (1, 2, 3)}},
                      "Prop_Laws", ("DimSets.tla", "Union(s, t) == s \\o SelectSeq(t, LAMBDA d : ~HasLetter(s, d))", "Union(s, t) == SelectSeq(t, LAMBDA d : ~HasLetter(s, d)) \\o s"))
+LIFE = {"ModelId": 1, "Depth": 2, "Emit": False, "Rich": False}
+expect_tlc_violation("model run: compute keeps the old stock", "MC_Lifecycle.tla", LIFE, "Prop_Lifecycle",
+                     ("Lifecycle.tla", "THEN LET tb == DsmTables(M, st, stmt.id) IN [st EXCEPT !.slev[stmt.id] = tb.lev, !.sout[stmt.id] = tb.out]",
+                      "THEN LET tb == DsmTables(M, st, stmt.id) IN [st EXCEPT !.slev[stmt.id] = ASub(tb.lev, ANeg(st.slev[stmt.id])), !.sout[stmt.id] = tb.out]"))
+expect_tlc_violation("model run: assignment by position", "MC_Lifecycle.tla", LIFE, "Prop_Lifecycle",
+                     ("Lifecycle.tla", "Assigned(ds, x) == ASumTo(x, ds)", "Assigned(ds, x) == RA(ds, LAMBDA lab : ASumTo(x, ds).val[[l \\in DOMAIN lab |-> 1]])"))
+expect_tlc_violation("model run: no sysenv mirror", "MC_Lifecycle.tla", LIFE, "Prop_Lifecycle",
+                     ("Lifecycle.tla", 'THEN {<<2, "stock", s>> : s \\in {u \\in DOMAIN M.stocks : M.stocks[u].proc # 0}} ELSE {})', "THEN {} ELSE {})"))
 res = tlcrun.run_tlc("MC_StockObject.tla", tlcrun.cfg_text(constants={"MCVariant": "stale", "Depth": 4, "NDrivers": 2, "NPrms": 2, "Emit": False}, invariants=["Prop_C17"]), workers=2)
 print(f"  {'stale-cache stock object':34s} -> {res.violation or 'NO VIOLATION (vacuous!)'}")
 if not res.violation:
